@@ -228,6 +228,60 @@ pub fn materialize(d: &Dims) -> Option<Case> {
     Some(Case { wire: w, cfg, prov })
 }
 
+/// Message class: the message with quoted data and digits abstracted away. Used only to tell apart
+/// stages that share an error kind; the expected class is *learnt* from the implementation's own
+/// answer to the single-defect vector (self-calibrating: rewording a message cannot raise an alarm).
+pub fn message_class(msg: &str) -> String {
+    let mut out = String::new();
+    let mut in_quote = false;
+    for c in msg.chars() {
+        if c == '\'' {
+            in_quote = !in_quote;
+            out.push('\'');
+            continue;
+        }
+        if in_quote {
+            continue;
+        }
+        if c.is_ascii_digit() {
+            if !out.ends_with('#') {
+                out.push('#');
+            }
+        } else {
+            out.push(c);
+        }
+    }
+    out
+}
+
+/// The single-defect vector that isolates the stage at which `d` stops.
+fn isolated(d: &Dims, stage: Stage) -> Dims {
+    let z = Dims { query_carrier: d.query_carrier, path: 0, query: 0, carrier: 0, alg: 0, syntax: 0, missing: 0, reqs: 0, date: 0, cred: 0, provider: 0, sig: 0 };
+    match stage {
+        Stage::Path => Dims { path: d.path, ..z },
+        Stage::Query => Dims { query: d.query, ..z },
+        Stage::Carrier => Dims { carrier: d.carrier, ..z },
+        Stage::Algorithm => Dims { alg: d.alg, ..z },
+        Stage::Syntax => Dims { syntax: d.syntax, ..z },
+        Stage::Missing => Dims { missing: d.missing, ..z },
+        Stage::Requirements => Dims { reqs: d.reqs, ..z },
+        Stage::DateFormat | Stage::Expired | Stage::Future => Dims { date: d.date, ..z },
+        Stage::Arity | Stage::Scope => Dims { cred: d.cred, ..z },
+        Stage::KeyLookup => Dims { provider: d.provider, ..z },
+        Stage::Signature => Dims { sig: d.sig, ..z },
+        _ => z,
+    }
+}
+
+fn learnt_class(d: &Dims) -> Option<String> {
+    let case = materialize(d)?;
+    let mut p = case.prov.to_provider();
+    match sut::validate(&case.wire, &case.cfg, &mut p) {
+        SutResult::Err(e) => Some(message_class(&e.display)),
+        _ => None,
+    }
+}
+
 /// Replay one vector on the implementation and compare with the automaton.
 pub fn conform(index: u64, d: &Dims, st: &mut Stats) {
     let v = d.vector();
@@ -268,6 +322,22 @@ pub fn conform(index: u64, d: &Dims, st: &mut Stats) {
                 bad = Some(("code-or-status".into(), format!("{} {}", e.code, e.status)));
             } else if ![400u16, 403, 500].contains(&e.status) || (e.status == 500 && run.stage != Stage::KeyLookup) {
                 bad = Some(("status-class".into(), format!("{}", e.status)));
+            } else if run.stage != Stage::KeyLookup {
+                // same kind, but is it the *earliest* check that reports? compare the message class with the
+                // one the implementation itself produces for that stage's defect alone
+                let iso = isolated(d, run.stage);
+                if iso != *d {
+                    thread_local! {
+                        static CLASSES: std::cell::RefCell<std::collections::HashMap<Dims, Option<String>>> = std::cell::RefCell::new(std::collections::HashMap::new());
+                    }
+                    let expected_class = CLASSES.with(|c| c.borrow_mut().entry(iso).or_insert_with(|| learnt_class(&iso)).clone());
+                    if let Some(ec) = expected_class {
+                        let got = message_class(&e.display);
+                        if got != ec {
+                            bad = Some(("precedence(message-class)".into(), format!("message class {:?}, but the defect of stage {:?} alone gives {:?}", got, run.stage, ec)));
+                        }
+                    }
+                }
             }
         }
         (other, _) => bad = Some(("outcome".into(), other.label())),
